@@ -726,6 +726,13 @@ class Eval(object):
             src, pas, mk = self.val(ops[0]), self.val(ops[1]), self.val(ops[2])
             n = T.width(src) // 32
             E[iid] = T.cat(*[T.sel(T.slice_(mk, i, 1), T.raw_op(nm, 32, T.slice_(src, i * 32, 32)), T.slice_(pas, i * 32, 32)) for i in range(n)])
+        elif re.match(r'^llvm\.x86\.avx512\.mask\.cvtps2dq\.(128|256|512)$', name):
+            # VCVTPS2DQ (float -> int32 in the current rounding mode: operand 3 = 4 means MXCSR) with write mask
+            if len(ops) > 3 and T.const_val(self.val(ops[3])) != 4:
+                raise Unsupported('%s with explicit rounding' % name)
+            src, pas, mk = self.val(ops[0]), self.val(ops[1]), self.val(ops[2])
+            n = T.width(src) // 32
+            E[iid] = T.cat(*[T.sel(T.slice_(mk, i, 1), T.raw_op('x86.cvtps2dq', 32, T.slice_(src, i * 32, 32)), T.slice_(pas, i * 32, 32)) for i in range(n)])
         elif re.match(r'^llvm\.x86\.avx512\.mask\.rndscale\.p[sd]\.(128|256|512)$', name):
             # VRNDSCALE with scale 0 (imm[7:4] = 0) is ROUNDPS/PD with imm[3:0]; write-masked
             imm = T.const_val(self.val(ops[1]))
